@@ -224,7 +224,7 @@ def gen(repo):
         raise ValueError("OrsoTypes is not an Enum")
     members = list(OT.__members__.items())
     tid = {m: i for i, (_, m) in enumerate(members)}
-    named = ["ARRAY", "DECIMAL", "BLOB", "VARCHAR", "STRUCT", "JSONB", "_MISSING_TYPE"]
+    named = ["ARRAY", "DECIMAL", "BLOB", "VARCHAR", "STRUCT", "JSONB", "_MISSING_TYPE", "DATE", "INTEGER"]
     for n in named:
         if n not in OT.__members__:
             raise ValueError("OrsoTypes has no member " + n)
